@@ -110,7 +110,7 @@ func runC04Body(c *Ctx, body string, txts []string, clauses []amountClause, repl
 			if kind == "find" {
 				return "find " + amount + " " + body
 			}
-			return "replace " + amount + " " + body + " with 'x' value"
+			return "replace " + amount + " " + body + " with 'x' value '#' matchNumber '@' startOffset '-' endOffset ':' lineNumber"
 		}
 		all, err, pi := compileSafe(mk("all"))
 		if err != nil || pi != nil {
